@@ -74,7 +74,7 @@ STANDARD execution of the modelled fragment (see `Ev`): `Outcome.log` are the ev
 before with more events in front (the log is kept most recent first) -/
 theorem log_only_grows (env : Env) (fuel : Nat) (states : Json) (name : Str) (data ctx : Json) (r : Nat) (st : St) :
     ∃ evs, (runFrom env fuel states name data ctx r st).2.log = evs ++ st.log :=
-  let ⟨evs, h, _⟩ := (growsAll env fuel).runFrom states name data ctx r st
+  let ⟨evs, _, h, _⟩ := (growsAll env fuel).runFrom states name data ctx r st
   ⟨evs, h⟩
 
 /-- what the run of the top scope leaves in the state: the log and the trace fit, no event opens or
@@ -88,7 +88,7 @@ theorem run_state_facts (env : Env) (fuel : Nat) (asl input ctx : Json) :
     split
     · exact (growsAll env fuel).runFrom _ _ _ _ _ _
     · exact Grows.refl _
-  obtain ⟨evs, hl, ht, hx, hb⟩ := G
+  obtain ⟨evs, ts, hl, ht, hx, hb, _⟩ := G
   have hl' : (runCore env fuel asl input ctx).2.log = evs := by simpa using hl
   have ht' : (runCore env fuel asl input ctx).2.trace = enteredNames evs := by simpa using ht
   refine ⟨by rw [enteredNames_reverse, hl', ht'], ?_, by rw [hl']; exact hb⟩
@@ -152,37 +152,42 @@ theorem history_fuel_independent (env : Env) (n m : Nat) (h : n ≤ m) (asl inpu
 
 /-- (iii) one task invocation files `LambdaFunctionScheduled` with the request's payload and resource
 and, directly after it, the reply's event — `LambdaFunctionSucceeded` or `LambdaFunctionFailed` -/
-theorem taskCall_files_request_then_reply (st : St) (counts : List ((Str × Json) × Nat)) (res : Str) (p r : Json)
-    (m : Nat) :
-    (st.taskCall counts res p r m).log = replyEv m r :: .lambdaScheduled p res :: st.log ∧
-    (replyEv m r).isReply = true := ⟨rfl, replyEv_isReply m r⟩
+theorem taskCall_files_request_then_reply (st : St) (counts : List ((Str × Json) × Nat)) (res : Str) (p : Json)
+    (ev : Ev) (tEnd : Rat) :
+    (st.taskCall counts res p ev tEnd).log = ev :: .lambdaScheduled p res :: st.log ∧
+    (st.taskCall counts res p ev tEnd).times = rmax st.clock tEnd :: st.clock :: st.times := ⟨rfl, rfl⟩
 
-/-- … in the Task state: whatever the state does afterwards (ResultSelector, ResultPath, transition,
-Retry, Catch) comes later -/
+/-- … in the Task state (the worker answers, or `TimeoutSeconds` runs out): the request, then directly the
+outcome's event — a reply kind: `LambdaFunctionSucceeded`, `LambdaFunctionFailed` or `LambdaFunctionTimedOut` —;
+whatever the state does afterwards (ResultSelector, ResultPath, transition, Retry, Catch) comes later -/
 theorem task_events_bracketed (env : Env) (fuel : Nat) (states : Json) (name fn : Str)
-    (state data ctx input params : Json) (retries : Nat) (st : St)
+    (state data ctx input params : Json) (retries : Nat) (st : St) (tEnd : Rat) (timedOut : Bool)
     (h : stateType state = S "Task")
     (hr : rpcFunction ((fldStr state "Resource").getD []) = some fn)
     (hi : applyPath data ctx (pathArg state "InputPath") = .ok input)
-    (hp : tmplOpt env input ctx (fld state "Parameters") = .ok params) :
-    ∃ later, (runState env (fuel + 1) states name state data ctx retries st).2.log =
-      later ++ replyEv env.maxData (env.task fn params (bump st.counts (fn, params)).1) ::
-        .lambdaScheduled params ((fldStr state "Resource").getD []) :: st.log := by
+    (hp : tmplOpt env input ctx (fld state "Parameters") = .ok params)
+    (ha : taskArrival (env.delay fn params (bump st.counts (fn, params)).1) (taskDeadline state st.clock) st.clock
+      = some (tEnd, timedOut)) :
+    (∃ later, (runState env (fuel + 1) states name state data ctx retries st).2.log =
+      later ++ taskEv env.maxData (env.task fn params (bump st.counts (fn, params)).1) timedOut ::
+        .lambdaScheduled params ((fldStr state "Resource").getD []) :: st.log) ∧
+    (taskEv env.maxData (env.task fn params (bump st.counts (fn, params)).1) timedOut).isReply = true := by
   have h1 : (S "Task" = S "Pass") = False := by decide
   have h2 : (S "Task" = S "Succeed") = False := by decide
   have h3 : (S "Task" = S "Fail") = False := by decide
   have h4 : (S "Task" = S "Wait") = False := by decide
   have h5 : (S "Task" = S "Choice") = False := by decide
   have G := growsAll env fuel
-  simp only [runState, h, h1, h2, h3, h4, h5, hr, hi, hp, if_false, if_true]
+  refine ⟨?_, (taskEv_plain _ _ _).2.2⟩
+  simp only [runState, h, h1, h2, h3, h4, h5, hr, hi, hp, ha, if_false, if_true]
   generalize hst : st.taskCall (bump st.counts (fn, params)).2 ((fldStr state "Resource").getD []) params
-    (env.task fn params (bump st.counts (fn, params)).1) env.maxData = st1
-  have hl : st1.log = replyEv env.maxData (env.task fn params (bump st.counts (fn, params)).1) ::
+    (taskEv env.maxData (env.task fn params (bump st.counts (fn, params)).1) timedOut) tEnd = st1
+  have hl : st1.log = taskEv env.maxData (env.task fn params (bump st.counts (fn, params)).1) timedOut ::
       .lambdaScheduled params ((fldStr state "Resource").getD []) :: st.log := by rw [← hst]; rfl
   have fin : ∀ st2, Grows st1 st2 → ∃ later, st2.log = later ++
-      replyEv env.maxData (env.task fn params (bump st.counts (fn, params)).1) ::
+      taskEv env.maxData (env.task fn params (bump st.counts (fn, params)).1) timedOut ::
         .lambdaScheduled params ((fldStr state "Resource").getD []) :: st.log := by
-    intro st2 ⟨evs, hg, _⟩
+    intro st2 ⟨evs, _, hg, _⟩
     exact ⟨evs, by rw [hg, hl]⟩
   split
   · exact fin _ (G.handleErr _ _ _ _ _ _ _ _ _)
